@@ -56,6 +56,8 @@ def loop_iter(x) -> SIter:
         raise Unsupported("loop directly over a shared symbolic iterator")
     if isinstance(x, SDict):
         return loop_iter(x.keys())
+    if isinstance(x, SSetView):
+        return loop_iter(x.order())
     if isinstance(x, SObj):
         sch = sym.OBJ_SCHEMAS.get(x.cls) or {}
         if "__iter__" in sch:
@@ -106,6 +108,8 @@ def star_call(f, before, star, after, kw):
         star = star.materialize()
     if isinstance(star, SSeq) and not isinstance(star.length(), int):
         return f(*before, Star(star), *after, **kw)
+    if isinstance(star, SObj) and "__iter__" not in (sym.OBJ_SCHEMAS.get(star.cls) or {}):
+        return f(*before, Star(star), *after, **kw)          # an opaque argument tuple: the callee's model sees it as one object
     return f(*before, *star, *after, **kw)
 
 
@@ -530,20 +534,45 @@ def mk_dict(keycls, valtype, name, with_keys=True):
 
 
 class SSetView:
-    """set(seq): only its size is modelled: size <= len(seq), and size == len(seq) iff the elements are pairwise different"""
+    """set(seq) of a symbolic sequence.  Its size d satisfies d <= len(seq) and d == len(seq) iff the elements are pairwise different.  Its ITERATION ORDER is an
+    arbitrary sequence `order` of length d: pairwise different, every entry an element of seq, every element of seq an entry - so whatever is proved holds for every
+    order a real set may iterate in (the tests see one)."""
 
     def __init__(self, seq):
         self.seq = SSeq.of(seq)
+        self._d = None
+        self._order = None
 
     def size(self):
-        c = cur()
-        n = lift(self.seq.length())
-        d = c.fresh("ndistinct", z3.IntSort())
-        arr, _ = sym.node_to_array(self.seq.node)
-        i, j = z3.Ints("i!sd j!sd")
-        distinct = z3.ForAll([i, j], z3.Implies(z3.And(0 <= i, i < j, j < n), z3.Select(arr, i) != z3.Select(arr, j)))
-        c.assume(z3.And(d >= 0, d <= n, (d == n) == distinct))
-        return SInt(d)
+        if self._d is None:
+            c = cur()
+            n = lift(self.seq.length())
+            d = c.fresh("ndistinct", z3.IntSort())
+            arr, _ = sym.node_to_array(self.seq.node)
+            i, j = z3.Ints("i!sd j!sd")
+            distinct = z3.ForAll([i, j], z3.Implies(z3.And(0 <= i, i < j, j < n), z3.Select(arr, i) != z3.Select(arr, j)))
+            c.assume(z3.And(d >= 0, d <= n, (d == n) == distinct))
+            self._d = SInt(d)
+        return self._d
+
+    def order(self) -> SSeq:
+        if self._order is None:
+            c = cur()
+            d = lift(self.size())
+            arr, sort = sym.node_to_array(self.seq.node)
+            n = lift(self.seq.length())
+            u = c.fresh("set.order", z3.ArraySort(z3.IntSort(), sort))
+            pos = z3.Function(f"set.position!{c.n}", sort, z3.IntSort())       # where an element of the set sits in the iteration order
+            src = z3.Function(f"set.source!{c.n}", z3.IntSort(), z3.IntSort())  # an index of seq holding the j-th element of the order
+            c.n += 1
+            i, j = z3.Ints("i!so j!so")
+            c.assume(z3.ForAll([i, j], z3.Implies(z3.And(0 <= i, i < j, j < d), z3.Select(u, i) != z3.Select(u, j)), patterns=[z3.MultiPattern(z3.Select(u, i), z3.Select(u, j))]))
+            c.assume(z3.ForAll([j], z3.Implies(z3.And(0 <= j, j < d), z3.And(0 <= src(j), src(j) < n, z3.Select(arr, src(j)) == z3.Select(u, j))), patterns=[z3.Select(u, j)]))
+            c.assume(z3.ForAll([i], z3.Implies(z3.And(0 <= i, i < n), z3.And(0 <= pos(z3.Select(arr, i)), pos(z3.Select(arr, i)) < d,
+                                                                             z3.Select(u, pos(z3.Select(arr, i))) == z3.Select(arr, i))), patterns=[z3.Select(arr, i)]))
+            elem_ty = {"Int": ("int",), "Real": ("real",), "Bool": ("bool",)}.get(str(sort), ("obj", "Elem"))
+            self._order = SSeq(("arr", SInt(d), u, elem_ty), "tuple")
+        return self._order
 
 
 def v_set(x=()):
